@@ -11,7 +11,7 @@
 (* to MaxN, one canonical schedule, one driver call per TLC step, and      *)
 (* checks                                                                  *)
 (*   - no internal error,                                                  *)
-(*   - waves per call <= 3 * jobs + 8  (so the guard 1500 + 10 * jobs can  *)
+(*   - waves per call <= 6 * jobs + 8  (so the guard 1500 + 10 * jobs can  *)
 (*     never be reached if the law continues, while the pre-fix constant   *)
 (*     guard is crossed at about 500 jobs: with GuardBase = 0 and          *)
 (*     GuardPerJob = 1 TLC shows the error branch reachable),              *)
@@ -39,6 +39,12 @@ GraphOf(fam, pat, n) ==
   LET J == {JobName(i) : i \in 0..(n - 1)} IN
   CASE fam = "chain" ->
          [kind |-> [j \in J |-> KindAt(pat, CHOOSE i \in 0..(n - 1) : JobName(i) = j)],
+          edges |-> {<<JobName(i), JobName(i + 1)>> : i \in 0..(n - 2)}]
+    [] fam = "erun" ->
+         \* a run of jobs of kind pat[2] between a first job of kind pat[1] and a last of kind pat[3]
+         [kind |-> [j \in J |-> LET i == CHOOSE k \in 0..(n - 1) : JobName(k) = j IN
+                                IF i = 0 THEN pat[1] ELSE IF i = n - 1 THEN pat[Len(pat)]
+                                ELSE pat[IF Len(pat) >= 2 THEN 2 ELSE 1]],
           edges |-> {<<JobName(i), JobName(i + 1)>> : i \in 0..(n - 2)}]
     [] fam = "fanout" ->
          [kind |-> [j \in J |-> LET i == CHOOSE k \in 0..(n - 1) : JobName(k) = j IN
@@ -115,7 +121,7 @@ DNext ==
 DSpec == DInit /\ [][DNext]_dvars
 
 NoLimitHit == d.r.e.err = ""
-WavesLinear == d.r.e.maxdepth <= 3 * d.n + 8
+WavesLinear == d.r.e.maxdepth <= 6 * d.n + 8
 FinishedOK ==
   Done(d.c, d.r) /\ d.r.e.err = "" =>
      LET s == Obs(d.c, d.r.e, d.r.w) IN
